@@ -86,6 +86,7 @@ pub fn lark_items() -> Vec<Item> {
         lark("no-cr", "start: /[^\\r]*/", &["a b\n\tc", "x\n\n y", "\t\n"]),
         lark("comment", "start: (C \"\\n\")+\nC: /#[^\\n]*/", &["#a b\n#\tc\n"]),
         lark("text-tab", "start: T (WS T)*\nT: /[^\\t]+/\nWS: /\\t+/", &["a b\t\tc\nd", "\n \t\n"]),
+        lark("long-shared-prefix", "start: a | b c\na: \"the quick brown fox jumps over the lazy dog\"\nb: \"the quick brown fox jumps over the lazy cat\"\nc: \"the quick brown fox jumps over the lazy cow\"", &["the quick brown fox jumps over the lazy dog", "the quick brown fox jumps over the lazy catthe quick brown fox jumps over the lazy cow"]),
         lark("mutual", "start: a\na: \"x\" b | \"y\"\nb: \"z\" a | \"w\"", &["xzxzy", "xw"]),
     ]
 }
